@@ -1,5 +1,5 @@
 # Shared tables for tools/mkmanifest.py; per-property claims live in tools/claims.d/CNN.json.
-HOOK_COMMITS = []
+HOOK_COMMITS = ["447fb50", "2f22383"]
 
 # properties deliberately not claimed, with the reason (others default to "not built yet")
 NOT_APPLICABLE = {}
